@@ -340,13 +340,7 @@ theorem verify_pl_any_tree (hS : Setting env rn cs o) (w : Written)
       exact ⟨he, hnv⟩
     · rintro ⟨he, hnv⟩
       refine ⟨he, hnv, ?_⟩
-      have := ((MhlProps.C02.visible_iff _ _ p false).1 he).2 p.length
-        (by
-          have := (MhlProps.C02.visible_relative _ _ p false he).2.1
-          cases p with
-          | nil => exact absurd rfl this
-          | cons a as => simp) (Nat.le_refl _)
-      simpa using this
+      exact MhlProps.C03.hitAbove_false_of_visible _ _ p false he
   · rw [verifyOrDiff_pl_eq]
   · rw [verifyOrDiff_pl_eq]
     simp only [if_true, verifyExit, Option.isSome_none, Bool.false_and, Bool.false_eq_true, if_false,
